@@ -83,6 +83,7 @@ func checkC04(c *Ctx) {
 	}
 	c.Floor("bodies with hidden sets", nHidden, 3, "hclsyntax.Body, json.body, dynblock.expandBody")
 	c.Rule("R1 hidden.fresh: in PartialContent of every Body implementation with hidden-set fields, each hidden map of the returned remainder is a map made in that call into which the receiver's corresponding map is copied by a range loop (fresh superset)")
+	c.Rule("R9 hidden.selffeed: in PartialContent, inside a loop over the body's own items (blocks, JSON properties) the hidden set being built for the remainder is not both consulted and extended: an item must be skipped because an EARLIER call consumed its name (the receiver's set), never because this call has just matched another item of the same name — several blocks of one type, or one block type spread over several JSON properties, are all returned")
 	c.Rule("R2 hidden.readonly: no method of such a type updates or deletes from a map loaded from the receiver's hidden-set fields")
 	c.Rule("R3 remainder.complete: the remainder literal built in PartialContent copies every other field of the receiver (source items, ranges, expansion state, marks)")
 	c.Rule("R4 hidden.honoured: each of Content, PartialContent and JustAttributes reads the hidden attribute set (directly or through a callee it hands the receiver to)")
@@ -104,6 +105,7 @@ func checkC04(c *Ctx) {
 			continue
 		}
 		c04HiddenFresh(c, bi, tname, pc)
+		c04SelfFeed(c, bi, tname, pc)
 		c04ReadOnly(c, bi, tname)
 		c04RemainderComplete(c, bi, tname, pc)
 		c04Honoured(c, bi, tname, map[string]*ssa.Function{"Content": co, "PartialContent": pc, "JustAttributes": ja})
@@ -214,6 +216,122 @@ func c04HiddenFresh(c *Ctx, bi bodyImpl, tname string, pc *ssa.Function) {
 			c.Check(ok, "hidden.fresh", key, al.Pos(), "fresh map, receiver's set copied in", why)
 		}
 	}
+}
+
+func c04SelfFeed(c *Ctx, bi bodyImpl, tname string, pc *ssa.Function) {
+	// the maps that become the remainder's hidden sets
+	fresh := map[ssa.Value]string{}
+	for _, al := range complitsOf(pc, bi.named) {
+		for _, h := range bi.hidden {
+			for _, st := range fieldStores(al, h) {
+				if mm, ok := st.Val.(*ssa.MakeMap); ok {
+					fresh[mm] = h.Name()
+				}
+			}
+		}
+	}
+	isFresh := func(v ssa.Value) (string, bool) {
+		if n, ok := fresh[v]; ok {
+			return n, true
+		}
+		// loaded back from the remainder literal's field
+		if u, ok := v.(*ssa.UnOp); ok && u.Op == token.MUL {
+			if fa, ok := u.X.(*ssa.FieldAddr); ok {
+				if al, ok := fa.X.(*ssa.Alloc); ok && namedOf(al.Type()) == bi.named {
+					for _, h := range bi.hidden {
+						if fieldVarOf(fa.X.Type(), fa.Field) == h {
+							return h.Name(), true
+						}
+					}
+				}
+			}
+		}
+		return "", false
+	}
+	recv := pc.Params[0]
+	fromReceiver := func(v ssa.Value) bool {
+		seen := map[ssa.Value]bool{}
+		var walk func(v ssa.Value, d int) bool
+		walk = func(v ssa.Value, d int) bool {
+			if v == nil || seen[v] || d > 8 {
+				return false
+			}
+			seen[v] = true
+			if v == ssa.Value(recv) || isSpillOf(v, recv) {
+				return true
+			}
+			switch x := v.(type) {
+			case *ssa.UnOp:
+				return walk(x.X, d+1)
+			case *ssa.FieldAddr:
+				return walk(x.X, d+1)
+			case *ssa.Extract:
+				return walk(x.Tuple, d+1)
+			case *ssa.Call:
+				for _, a := range x.Call.Args {
+					if walk(a, d+1) {
+						return true
+					}
+				}
+			case *ssa.Phi:
+				for _, e := range x.Edges {
+					if walk(e, d+1) {
+						return true
+					}
+				}
+			}
+			return false
+		}
+		return walk(v, 0)
+	}
+	n := 0
+	for _, scc := range sccBlocks(pc.Blocks, nil) {
+		if len(scc) < 2 {
+			continue
+		}
+		// what the loop iterates over
+		overItems := false
+		for _, b := range scc {
+			for _, ins := range b.Instrs {
+				switch x := ins.(type) {
+				case *ssa.IndexAddr:
+					if isRangeIndex(x.Index) && fromReceiver(x.X) {
+						overItems = true
+					}
+				case *ssa.Next:
+					if rg, ok := x.Iter.(*ssa.Range); ok && fromReceiver(rg.X) {
+						overItems = true
+					}
+				}
+			}
+		}
+		if !overItems {
+			continue
+		}
+		looked, updated := map[string]token.Pos{}, map[string]token.Pos{}
+		for _, b := range scc {
+			for _, ins := range b.Instrs {
+				switch x := ins.(type) {
+				case *ssa.Lookup:
+					if h, ok := isFresh(x.X); ok {
+						looked[h] = x.Pos()
+					}
+				case *ssa.MapUpdate:
+					if h, ok := isFresh(x.Map); ok {
+						// the copy loop over the receiver's own hidden set is not an item loop
+						updated[h] = x.Pos()
+					}
+				}
+			}
+		}
+		for h, pos := range looked {
+			n++
+			_, fed := updated[h]
+			c.Check(!fed, "hidden.selffeed", tname+".PartialContent:loop["+h+"]", pos, "the set consulted in the item loop is not extended in it",
+				"the item loop skips items by looking them up in the "+h+" set it is itself extending: after one item of a name has been matched, later items of the same name are dropped (neither returned, reported nor left in the remainder)")
+		}
+	}
+	_ = n
 }
 
 func c04ReadOnly(c *Ctx, bi bodyImpl, tname string) {
